@@ -724,7 +724,7 @@ pub fn run(args: &Args) {
     }
     run.exhaustive = true;
     run.notes.insert("exhaustive_scope".into(), serde_json::json!(format!(
-        "family A (one audio transceiver): all {}^{} call sequences over a {}-symbol alphabet after each of 4 prefixes (fresh / negotiated as offerer / negotiated as answerer / negotiated and transport started) in 3 transport modes; family B (three transceivers, one with a sender; multi-section, mid-less, named-mid, data, RTX, simulcast, SSRC, mid 65535 descriptions): all {}^3 sequences after 2 prefixes in WebRTC and RTP mode; failing-bind environment: RTP mode, both alphabets",
+        "family A (one audio transceiver): all {}^{} call sequences over a {}-symbol alphabet after each of 4 prefixes (fresh / negotiated as offerer / negotiated as answerer / negotiated and transport started) in 3 transport modes; family B (three transceivers, one with a sender; multi-section, mid-less, named-mid, data, RTX, simulcast, SSRC, mid 65535 descriptions): all {}^3 sequences after 2 prefixes in WebRTC and RTP mode, and in SDES-SRTP mode after the fresh prefix (quick) / all three prefixes (thorough); failing-bind environment: RTP mode, both alphabets",
         al.len(), len, al.len(), alb.len())));
     run.finish();
 }
